@@ -106,6 +106,20 @@ def noCommas (st : Struct) : Bool := st.all fun f => f.vals.all fun v => !hasCom
     client's `Cookie` store is a `map[string]string`, it cannot hold two values of one name. -/
 def multiValuedSlice (st : Struct) : Bool := st.any fun f => decide (f.vals.length ≥ 2)
 
+/-- what the K1 defect leaves of a field: the cookie map keeps only the last element of a slice -/
+def Field.lastOnly (f : Field) : Field :=
+  { spec := f.spec, vals := match f.vals.getLast? with | some v => [v] | none => [] }
+
+/-- the struct the server receives from the cookie source (equal to the struct sent iff no slice has
+    two or more elements, `lastOnly_id`) -/
+def lastOnly (st : Struct) : Struct := st.map Field.lastOnly
+
+/-- `EnableSplittingOnParsers` is consulted by the query, form (urlencoded and multipart), header and
+    cookie binders only; the JSON / XML / CBOR decoders never split. -/
+def splitApplies : Transport → Bool
+  | .json | .xml | .cbor => false
+  | _ => true
+
 /-! ### what the struct's tags must look like (checked by the driver on every case) -/
 
 /-- an alias every transport can carry as a key: non-empty, ASCII letters / digits / '-' -/
@@ -134,10 +148,11 @@ structure Obs where
 def structVals (st : Struct) : List (List Val) := st.map (·.vals)
 
 /-- error reporting clause: an error is visible to the client as ≥ 400, and is a 400 under
-    automatic handling (422 = the documented "no binder for this content type" outcome of `Body`). -/
-def reportOK (auto : Bool) (o : Obs) : Option String :=
+    automatic handling. `allow422`: the request's content type selects no decoder — then (and only
+    then) `Body` documents `ErrUnprocessableEntity` (422) as the outcome. -/
+def reportOK (auto allow422 : Bool) (o : Obs) : Option String :=
   if !o.err then none
-  else if o.code = 422 ∧ o.status = 422 then none
+  else if allow422 ∧ o.code = 422 ∧ o.status = 422 then none
   else if auto ∧ ¬ (o.code = 400 ∧ o.status = 400) then some "failure-is-400-under-auto-handling"
   else if o.status < 400 then some "failure-reported-as-error"
   else none
@@ -145,17 +160,18 @@ def reportOK (auto : Bool) (o : Obs) : Option String :=
 /-- the round-trip clause on one observed round trip -/
 def specRoundTrip (t : Transport) (split auto : Bool) (st : Struct) (o : Obs) : Option String :=
   if o.panicked then some "never-panics"
-  else if wfStruct t st && (!split || noCommas st) then
+  else if wfStruct t st && (!(split && splitApplies t) || noCommas st) then
     if o.sendErr then some "roundtrip-client-sends"
     else if !o.ran then some "roundtrip-arrives"
     else if o.err then some "roundtrip-no-error"
-    else if o.dec ≠ structVals st then some "roundtrip-equal-value"
     else if o.status ≠ 200 then some "roundtrip-status"
+    -- last: the one clause known finding K1 trips, so that it hides no other clause
+    else if o.dec ≠ structVals st then some "roundtrip-equal-value"
     else none
-  else reportOK auto o
+  else reportOK auto false o
 
 /-- the totality clause on one raw binding -/
-def specTotal (auto : Bool) (o : Obs) : Option String :=
-  if o.panicked then some "never-panics" else reportOK auto o
+def specTotal (auto allow422 : Bool) (o : Obs) : Option String :=
+  if o.panicked then some "never-panics" else reportOK auto allow422 o
 
 end C11
